@@ -234,9 +234,9 @@ Inductive frame :=
 | FDiscReq (id dcid scid : Z)
 | FDiscRsp (id dcid scid : Z)
 | FLeReq (id psm scid credits : Z) (okp : bool)   (* okp: MTU and MPS of the request are within the limits *)
-| FLeRsp (id dcid credits result : Z)
+| FLeRsp (id dcid credits result : Z) (okp : bool)   (* okp: MTU and MPS of the response are within the limits *)
 | FEnhReq (id psm credits : Z) (scids : list Z) (okp : bool)
-| FEnhRsp (id credits result : Z) (dcids : list Z)
+| FEnhRsp (id credits result : Z) (dcids : list Z) (okp : bool)
 | FCredit (id cid credits : Z)
 | FReject (id : Z)
 | FData (cid : Z).
@@ -512,15 +512,15 @@ Definition srv_get (psm : Z) (l : list (Z * Z)) : option Z := aget psm l.
 
 Definition recv_le_req (m : mgr) (h id psm scid credits : Z) (okp : bool) : mgr * list frame :=
   match srv_get psm (m_lesrv m) with
-  | None => (m, [FLeRsp id 0 0 R_NO_PSM])
+  | None => (m, [FLeRsp id 0 0 R_NO_PSM true])
   | Some srv_credits =>
-      if negb okp then (m, [FLeRsp id 0 0 R_LE_BAD_PARAMS])        (* MTU / MPS below the minimum *)
-      else if memz scid (tkeys h (m_le m)) then (m, [FLeRsp id 0 0 R_CID_IN_USE])
+      if negb okp then (m, [FLeRsp id 0 0 R_LE_BAD_PARAMS true])        (* MTU / MPS below the minimum *)
+      else if memz scid (tkeys h (m_le m)) then (m, [FLeRsp id 0 0 R_CID_IN_USE true])
       else match find_free_le (tkeys h (m_chs m)) with
-           | None => (m, [FLeRsp id 0 0 R_NO_RESOURCES])
+           | None => (m, [FLeRsp id 0 0 R_NO_RESOURCES true])
            | Some local =>
                (fst (new_le_chans m h SConnected credits 0 true [(local, scid)]),
-                [FLeRsp id local srv_credits R_OK])
+                [FLeRsp id local srv_credits R_OK true])
            end
   end.
 
@@ -558,15 +558,15 @@ Fixpoint any_mem (xs ys : list Z) : bool :=
 
 Definition recv_enh_req (m : mgr) (h id psm credits : Z) (scids : list Z) (okp : bool) : mgr * list frame :=
   match srv_get psm (m_lesrv m) with
-  | None => (m, [FEnhRsp id 0 R_NO_PSM []])
+  | None => (m, [FEnhRsp id 0 R_NO_PSM [] true])
   | Some srv_credits =>
-      if negb okp then (m, [FEnhRsp id 0 R_ENH_BAD_PARAMS []])
-      else if any_mem scids (tkeys h (m_le m)) then (m, [FEnhRsp id 0 R_CID_IN_USE []])
+      if negb okp then (m, [FEnhRsp id 0 R_ENH_BAD_PARAMS [] true])
+      else if any_mem scids (tkeys h (m_le m)) then (m, [FEnhRsp id 0 R_CID_IN_USE [] true])
       else match find_free_le_n (tkeys h (m_chs m)) (length scids) with
-           | [] => (m, [FEnhRsp id srv_credits R_NO_RESOURCES []])
+           | [] => (m, [FEnhRsp id srv_credits R_NO_RESOURCES [] true])
            | locals =>
                (fst (new_le_chans m h SConnected credits 0 true (combine locals scids)),
-                [FEnhRsp id srv_credits R_OK locals])
+                [FEnhRsp id srv_credits R_OK locals true])
            end
   end.
 
@@ -756,6 +756,14 @@ Definition recv_credit (m : mgr) (h cid n : Z) : mgr * list frame :=
       end
   end.
 
+(* (D17g) a successful response whose MTU / MPS are outside the limits is handled as a refusal:
+   LeCreditBasedChannel.on_connection_response / on_l2cap_credit_based_connection_response
+   replace the result before anything else is done with it *)
+Definition eff_le (result : Z) (okp : bool) : Z :=
+  if Z.eqb result R_OK && negb okp then R_LE_BAD_PARAMS else result.
+Definition eff_enh (result : Z) (okp : bool) : Z :=
+  if Z.eqb result R_OK && negb okp then R_ENH_BAD_PARAMS else result.
+
 Definition recv (m : mgr) (h : Z) (f : frame) : mgr * list frame :=
   match f with
   | FConnReq id psm scid => recv_conn_req m h id psm scid
@@ -765,9 +773,9 @@ Definition recv (m : mgr) (h : Z) (f : frame) : mgr * list frame :=
   | FDiscReq id dcid scid => recv_disc_req m h id dcid scid
   | FDiscRsp id dcid scid => recv_disc_rsp m h id dcid scid
   | FLeReq id psm scid credits okp => recv_le_req m h id psm scid credits okp
-  | FLeRsp id dcid credits result => recv_le_rsp m h id dcid credits result
+  | FLeRsp id dcid credits result okp => recv_le_rsp m h id dcid credits (eff_le result okp)
   | FEnhReq id psm credits scids okp => recv_enh_req m h id psm credits scids okp
-  | FEnhRsp id credits result dcids => recv_enh_rsp m h id credits result dcids
+  | FEnhRsp id credits result dcids okp => recv_enh_rsp m h id credits (eff_enh result okp) dcids
   | FCredit id cid credits => recv_credit m h cid credits
   | FReject _ => (m, [])
   | FData _ => (m, [])
@@ -935,25 +943,29 @@ Definition target_kind (m : mgr) (h cid : Z) : option (ckind * cst * Z * Z) :=
 Definition not_le_target (m : mgr) (h cid : Z) : bool :=
   match target_kind m h cid with Some (KLe, _, _, _) => false | _ => true end.
 
+(* the frame answers an LE request (not a classic channel that reuses the CID), and a
+   response that is (after the parameter check) successful assigns a CID the peer does not
+   already use on this connection *)
+Definition le_rsp_ok (m : mgr) (h id dcid result : Z) : bool :=
+  match tget h id (m_reqs m) with
+  | Some scid =>
+      match target_kind m h scid with Some (KCl, _, _, _) => false | _ => true end
+      && (negb (Z.eqb result R_OK) || negb (memz dcid (tkeys h (m_le m))))
+  | None => true
+  end.
+Definition enh_rsp_ok (m : mgr) (h id result : Z) (dcids : list Z) : bool :=
+  match tget h id (m_pend m) with
+  | Some (_, us) =>
+      negb (Z.eqb result R_OK)
+      || (Nat.eqb (length dcids) (length us) && nodupz dcids
+          && negb (any_mem dcids (tkeys h (m_le m))))
+  | None => true
+  end.
+
 Definition frame_ok (m : mgr) (h : Z) (f : frame) : bool :=
   match f with
-  | FLeRsp id dcid _ result =>
-      (* the frame answers an LE request (not a classic channel that reuses the CID), and a
-         successful response assigns a CID the peer does not already use on this connection *)
-      match tget h id (m_reqs m) with
-      | Some scid =>
-          match target_kind m h scid with Some (KCl, _, _, _) => false | _ => true end
-          && (negb (Z.eqb result R_OK) || negb (memz dcid (tkeys h (m_le m))))
-      | None => true
-      end
-  | FEnhRsp id _ result dcids =>
-      match tget h id (m_pend m) with
-      | Some (_, us) =>
-          negb (Z.eqb result R_OK)
-          || (Nat.eqb (length dcids) (length us) && nodupz dcids
-              && negb (any_mem dcids (tkeys h (m_le m))))
-      | None => true
-      end
+  | FLeRsp id dcid _ result okp => le_rsp_ok m h id dcid (eff_le result okp)
+  | FEnhRsp id _ result dcids okp => enh_rsp_ok m h id (eff_enh result okp) dcids
   | FEnhReq _ _ _ scids _ => nodupz scids
   | FConnRsp _ _ scid _ => not_le_target m h scid
   | FConfReq _ dcid _ _ => not_le_target m h dcid
